@@ -2,6 +2,7 @@ package bus
 
 import (
 	"bytes"
+	"sync"
 	"time"
 
 	"github.com/lugu/qiloop/bus/net"
@@ -22,8 +23,9 @@ type Channel interface {
 // channel represent an established connection between a client and a
 // server.
 type channel struct {
-	capability CapabilityMap
-	endpoint   net.EndPoint
+	capability      CapabilityMap
+	capabilityMutex sync.RWMutex
+	endpoint        net.EndPoint
 }
 
 // NewChannel retuns a channel
@@ -77,17 +79,28 @@ func (c *channel) Authenticate() error {
 
 // Authenticated returns true if the connection is authenticated.
 func (c *channel) Authenticated() bool {
+	c.capabilityMutex.RLock()
+	defer c.capabilityMutex.RUnlock()
 	return c.capability.Authenticated()
 }
 
 // SetAuthenticated marks the context as authenticated.
 func (c *channel) SetAuthenticated() {
+	c.capabilityMutex.Lock()
+	defer c.capabilityMutex.Unlock()
 	c.capability.SetAuthenticated()
 }
 
-// Cap return the capability map associated with the channel.
+// Cap return a copy of the capability map associated with the
+// channel.
 func (c *channel) Cap() CapabilityMap {
-	return c.capability
+	c.capabilityMutex.RLock()
+	defer c.capabilityMutex.RUnlock()
+	capability := make(CapabilityMap, len(c.capability))
+	for k, v := range c.capability {
+		capability[k] = v
+	}
+	return capability
 }
 
 // EndPoint returns the other side endpoint.
